@@ -188,8 +188,9 @@ def evaluate(check, cases, driver_file):
     return recs
 
 
-def shrink_failure(check, case, driver_file, signature, deadline):
-    """Greedy shrinking: keep a smaller case while it still fails (same signature if any)."""
+def shrink_failure(check, case, driver_file, signature, deadline, ignore_sigs=()):
+    """Greedy shrinking: keep a smaller case while it still fails (same signature if any; failures
+    that are listed known findings never count, so a shrink cannot collapse into a known finding)."""
     cur = case
     improved = True
     steps = 0
@@ -205,7 +206,8 @@ def shrink_failure(check, case, driver_file, signature, deadline):
             r = recs[0]
             if r.get("internal"):
                 continue
-            if r["fail"] and (signature is None or any(f.signature == signature for f in r["fail"])):
+            live = [f for f in r["fail"] if f.signature not in ignore_sigs]
+            if live and (signature is None or any(f.signature == signature for f in live)):
                 cur = cand
                 improved = True
                 steps += 1
@@ -396,7 +398,8 @@ def run_check(check, tier, seed):
         case = f.case
         if case is not None and driver_ok:
             try:
-                case = shrink_failure(check, case, driver_file, f.signature, time.time() + 60)
+                case = shrink_failure(check, case, driver_file, f.signature, time.time() + 60,
+                                      ignore_sigs=set(known_sigs))
             except Exception:
                 pass
         payload = {
@@ -495,5 +498,11 @@ def replay(check, path):
     print("impl:", short(r["impl"], 2000))
     print("model:", short(r["model"], 2000))
     print("correspondence:", "agree" if not r["disagree"] else "DISAGREE " + "; ".join(r["disagree"]))
-    print("property:", "holds" if not r["fail"] else "FAILS " + "; ".join(f.what for f in r["fail"]))
-    return 1 if r["fail"] else 0
+    known = {f["signature"] for f in load_findings()
+             if f.get("property") == check.pid and f.get("status") == "known"}
+    new = [f for f in r["fail"] if f.signature not in known]
+    old = [f for f in r["fail"] if f.signature in known]
+    for f in old:
+        print(f"KNOWN-FINDING: property={check.pid} {f.signature}: {f.what}")
+    print("property:", "holds" if not new else "FAILS " + "; ".join(f.what for f in new))
+    return 1 if new else 0
